@@ -50,7 +50,7 @@ FirstBadRun(R) == LET bad == {i \in DOMAIN R.runs : RealWhy(R, R.runs[i]) # "ok"
 
 Judge ==
   LET R == T[tid]
-      specWhy == IF R.refused THEN "ok"
+      specWhy == IF R.refused \/ Run(R.base).st # "stop" THEN "ok"          \* base outside the typed domain of the VM spec: no spec-level verdict
                  ELSE IF R.mode \in FnModes THEN FnWhy(R.base, R.new, R.mode) ELSE InjWhy(R.base, R.new, R.mode)
       fb == IF R.refused \/ ~R.base_loads THEN 0 ELSE FirstBadRun(R)
       drift == IF R.refused \/ R.mode \in FnModes THEN FALSE ELSE R.new # Rewrite(R.base, R.mode)
